@@ -34,7 +34,7 @@ struct Sink
 {
 	virtual bool listenerEnter(int cb, int arg) = 0;   // bookkeeping at the moment the wrapped listener is reached; false: stop
 	virtual void listenerBody(int cb, int arg) = 0;    // what the listener itself does (re-trigger)
-	virtual bool condition(int cb, bool hasArg, int arg) = 0;
+	virtual bool condition(int cb, bool hasArg, int arg, int ownCalls) = 0;
 	virtual ~Sink() {}
 };
 extern Sink * g_sink;
@@ -54,13 +54,17 @@ struct Fn : Tracked<seq::T_FN, false>
 };
 struct CondArg : Tracked<seq::T_COND, false>
 {
-	explicit CondArg(int id) : Tracked<seq::T_COND, false>(id) {}
-	bool operator() (int arg) const { faultPoint(F_CALL); FaultOff off; this->alive("condition evaluated"); return g_sink->condition(this->id, true, arg); }
+	// the condition keeps state inside the callable (how often THIS object has been asked): the library must evaluate the stored
+	// condition object itself on every trigger, not a copy of it
+	mutable int calls;
+	explicit CondArg(int id) : Tracked<seq::T_COND, false>(id), calls(0) {}
+	bool operator() (int arg) const { faultPoint(F_CALL); FaultOff off; this->alive("condition evaluated"); return g_sink->condition(this->id, true, arg, calls++); }
 };
 struct CondNoArg : Tracked<seq::T_COND, false>
 {
-	explicit CondNoArg(int id) : Tracked<seq::T_COND, false>(id) {}
-	bool operator() () const { faultPoint(F_CALL); FaultOff off; this->alive("condition evaluated"); return g_sink->condition(this->id, false, 0); }
+	mutable int calls;
+	explicit CondNoArg(int id) : Tracked<seq::T_COND, false>(id), calls(0) {}
+	bool operator() () const { faultPoint(F_CALL); FaultOff off; this->alive("condition evaluated"); return g_sink->condition(this->id, false, 0, calls++); }
 };
 
 struct Counters
@@ -264,7 +268,7 @@ struct Interp : Sink
 		if(item.retrigger && fuel > 0 && frames.size() < 4) retrigPending = true;
 	}
 
-	bool condition(int cb, bool hasArg, int arg) override
+	bool condition(int cb, bool hasArg, int arg, int ownCalls) override
 	{
 		++counters.conditionEvaluations;
 		if(frames.empty()) { viol.raise("condition-outside-trigger", "condition of listener " + std::to_string(cb) + " evaluated outside any trigger"); return false; }
@@ -275,6 +279,7 @@ struct Interp : Sink
 		if(hasArg && arg != fr.arg) { viol.raise("condition-argument-mismatch", "condition of listener " + std::to_string(cb) + " received " + std::to_string(arg) + " instead of the trigger's argument " + std::to_string(fr.arg)); return false; }
 		MItem & m = lists[fr.target][fr.key][(size_t)idx];
 		if(hasArg != m.condTakesArg) { viol.raise("condition-wrong-overload", "condition of listener " + std::to_string(cb) + " was called " + (hasArg ? "with" : "without") + " the trigger's arguments"); return false; }
+		if(ownCalls != m.evals) { viol.raise("condition-state-lost", "the condition object of listener " + std::to_string(cb) + " says it has been evaluated " + std::to_string(ownCalls) + " times before, but " + std::to_string(m.evals) + " triggers have evaluated it: a copy is being evaluated instead of the stored condition"); return false; }
 		const bool verdict = ((m.pattern >> (m.evals & 7)) & 1) != 0;
 		++m.evals;
 		condPending[cb] = true;
